@@ -231,7 +231,10 @@ theorem Run.catchND {m : M α} {h : Stop → M α} {Q : α → St → Prop}
   | diag d =>
     dsimp only
     split
-    · exact hh _ σ' hW' hE' hE0' he
+    · refine Run.get_bind ?_
+      split
+      · exact hh _ σ' hW' hE' hE0' he
+      · exact Run.throw hW' hE0' he
     · exact Run.throw hW' hE0' he
   | _ => exact Run.throw hW' hE0' he
 
